@@ -435,6 +435,25 @@ func runC16(c *Ctx) {
 						bad = in
 					}
 				case *ssa.Call:
+					// maps.Copy / maps.Insert / clear with a field of the Templater as destination writes into the retained map
+					if sc := x.Call.StaticCallee(); sc != nil {
+						g := sc
+						if sc.Origin() != nil {
+							g = sc.Origin()
+						}
+						if pk := pkgOfFunc(g); pk != nil && pk.Path() == "maps" && (g.Name() == "Copy" || g.Name() == "Insert" || g.Name() == "DeleteFunc") && len(x.Call.Args) > 0 {
+							if lf := PathOf(x.Call.Args[0]).LastField(); lf != nil && lf.Pkg() != nil && lf.Pkg().Name() == "templater" {
+								okState = false
+								bad = in
+							}
+						}
+					}
+					if b, isB := x.Call.Value.(*ssa.Builtin); isB && (b.Name() == "clear" || b.Name() == "delete") && len(x.Call.Args) > 0 {
+						if lf := PathOf(x.Call.Args[0]).LastField(); lf != nil && lf.Pkg() != nil && lf.Pkg().Name() == "templater" {
+							okState = false
+							bad = in
+						}
+					}
 					// the data passed to template.Execute: the engine's vars, the extra parameter, or a map made in this call
 					if o := CalleeObj(&x.Call); o != nil && o.Name() == "Execute" && o.Pkg() != nil && o.Pkg().Path() == "text/template" {
 						d := x.Call.Args[len(x.Call.Args)-1]
